@@ -20,6 +20,7 @@ Not decided: that the constraint predicates compute the right geometry.
 """
 import ast
 
+from ..engine.inline import Inliner
 from ..engine.model import AnalysisError, src, walk_own
 from .spstate import SPAnalysis, SPM, DERIVED, REL, POSE_B, POSE_T, self_field, St, SPDomain
 from ..engine.flow import Flow
@@ -161,19 +162,22 @@ def check(model, rep):
         ok_sw = len(top) == 1 and src(top[0].test).replace(' ', '') == 'self.validation_settings[%d]' % k
         rep.ob('R10.3', fi, 'guarded by validation_settings[%d]' % k, ok_sw, 'validator %d is switched by %s' % (k, src(top[0].test) if top else '?'))
         body = top[0].body if top else []
-        tv = [n for n in body if isinstance(n, ast.Assign) and src(n.targets[0]) == 'temp_valid']
-        ok_c = len(tv) == 1 and src(tv[0].value) == 'self.%s()' % constraint
-        rep.ob('R10.3', fi, 'temp_valid = %s()' % constraint, ok_c, 'validator %d evaluates %s' % (k, src(tv[0].value) if tv else '?'))
-        comb = [n for n in body if isinstance(n, ast.Assign) and src(n.targets[0]) == 'valid']
-        ok_comb = len(comb) == 1 and src(comb[0].value).replace(' ', '') in ('validandtemp_valid', 'temp_validandvalid')
-        rep.ob('R10.3', fi, 'valid = valid and temp_valid', ok_comb, 'verdict is combined as %s: an earlier False can be overwritten' % (src(comb[0].value) if comb else '?'))
-        corr = [n for n in body if isinstance(n, ast.If) and 'donothing' in src(n.test)]
+        il = Inliner(fi)
+        pv, pd = fi.params[1], fi.params[2]
+        cons = 'self.%s()' % constraint
+        comb = [n for n in body if isinstance(n, ast.Assign) and src(n.targets[0]) == pv]
+        got_c = il.text(comb[0].value) if comb else '?'
+        ok_c = len(comb) == 1 and cons in got_c
+        rep.ob('R10.3', fi, 'verdict of %s() consulted' % constraint, ok_c, 'validator %d evaluates %s' % (k, got_c))
+        ok_comb = len(comb) == 1 and got_c in ('%sand%s' % (pv, cons), '%sand%s' % (cons, pv))
+        rep.ob('R10.3', fi, 'valid = valid and <constraint verdict>', ok_comb, 'verdict is combined as %s: an earlier False can be overwritten' % got_c)
+        corr = [n for n in body if isinstance(n, ast.If) and pd in src(n.test)]
         ok_corr = False
         msg = 'corrective branch not recognised'
         if len(corr) == 1:
-            t = src(corr[0].test).replace(' ', '').replace('(', '').replace(')', '')
-            guard_ok = t in ('nottemp_validandnotdonothing', 'notdonothingandnottemp_valid')
-            reval = [n for n in corr[0].body if isinstance(n, ast.Assign) and src(n.targets[0]) == 'valid']
+            t = il.text(corr[0].test)
+            guard_ok = il.same(corr[0].test, ('not %s and not %s' % (cons, pd), 'not %s and not %s' % (pd, cons)))
+            reval = [n for n in corr[0].body if isinstance(n, ast.Assign) and src(n.targets[0]) == pv]
             last = corr[0].body[-1] if corr[0].body else None
             rv_ok = len(reval) == 1 and reval[0] is last and isinstance(reval[0].value, ast.Call) and src(reval[0].value.func) == 'self.validate' \
                 and len(reval[0].value.args) == 2 and src(reval[0].value.args[0]) == 'True' \
@@ -184,18 +188,20 @@ def check(model, rep):
             msg = 'guard %s (ok=%s); re-validation %s (ok=%s); corrective calls %d' % (t, guard_ok, src(reval[0].value) if reval else '?', rv_ok, len(acts))
         rep.ob('R10.3', fi, 'corrective action only if not donothing, then validate(True, >=%d)' % (k + 1), ok_corr, msg)
         rets = [n for n in walk_own(fi.node) if isinstance(n, ast.Return)]
-        rep.ob('R10.3', fi, 'returns the combined verdict', len(rets) == 1 and src(rets[0].value) == 'valid', 'validator does not return `valid`')
+        rep.ob('R10.3', fi, 'returns the combined verdict', len(rets) == 1 and src(rets[0].value) == pv, 'validator does not return `%s`' % pv)
     v = sp.methods.get('validate')
+    rets = [n for n in walk_own(v.node) if isinstance(n, ast.Return)]
+    acc = src(rets[0].value) if len(rets) == 1 and isinstance(rets[0].value, ast.Name) else None
+    pd_, pl_ = v.params[1], v.params[2]
     chain = []
     for n in v.body():
-        if isinstance(n, ast.If) and src(n.test).startswith('validation_limit >'):
+        if isinstance(n, ast.If) and src(n.test).startswith(pl_ + ' >'):
             c = n.body[0] if n.body else None
-            if isinstance(c, ast.Assign) and src(c.targets[0]) == 'valid' and isinstance(c.value, ast.Call):
+            if isinstance(c, ast.Assign) and src(c.targets[0]) == acc and isinstance(c.value, ast.Call):
                 chain.append((src(n.test).replace(' ', ''), src(c.value).replace(' ', '')))
-    want = [('validation_limit>%d' % i, 'self.%s(valid,donothing)' % VALIDATORS[i][0]) for i in range(4)]
+    want = [('%s>%d' % (pl_, i), 'self.%s(%s,%s)' % (VALIDATORS[i][0], acc, pd_)) for i in range(4)]
     rep.ob('R10.3', v, 'validate(): four validators in switch order under limits 0..3', chain == want, 'chain is %s' % chain)
-    rets = [n for n in walk_own(v.node) if isinstance(n, ast.Return)]
-    rep.ob('R10.3', v, 'validate() returns the accumulated verdict', len(rets) == 1 and src(rets[0].value) == 'valid', 'validate does not return `valid`')
+    rep.ob('R10.3', v, 'validate() returns the accumulated verdict', acc is not None, 'validate does not return the accumulated verdict')
 
     # ---------------------------------------------------------------- R10.4
     rep.rule('R10.4', 'pure queries (default arguments) end with the stored plate poses they started with')
